@@ -42,6 +42,10 @@ type LinearState struct {
 
 	cachedRules map[string]*Rule
 
+	// cachedRulesMutex protects cachedRules, which is used both
+	// with and without the state lock held.
+	cachedRulesMutex sync.Mutex
+
 	store Storage
 
 	addHook AddHookFn
@@ -154,7 +158,9 @@ func (s *LinearState) Load(ctx *Context) error {
 
 func (s *LinearState) Add(ctx *Context, id string, x Map) (string, error) {
 	Log(DEBUG, ctx, "LinearState.Add", "state", s.Name, "x", x, "id", id)
+	s.cachedRulesMutex.Lock()
 	delete(s.cachedRules, id)
+	s.cachedRulesMutex.Unlock()
 	timer := NewTimer(ctx, "LinearState.Add")
 	defer timer.Stop()
 
@@ -215,7 +221,9 @@ func (s *LinearState) Rem(ctx *Context, id string) (bool, error) {
 
 func (s *LinearState) rem(ctx *Context, id string, lock bool) (bool, error) {
 	Log(DEBUG, ctx, "LinearState.rem", "id", id)
+	s.cachedRulesMutex.Lock()
 	delete(s.cachedRules, id)
+	s.cachedRulesMutex.Unlock()
 	_, err := s.store.Remove(ctx, s.Name, []byte(id))
 	// ToDo: Consider what's returned.
 	if err != nil {
@@ -412,6 +420,8 @@ func (s *LinearState) FindCachedRules(ctx *Context, event Map) (map[string]*Rule
 	}
 
 	acc := make(map[string]*Rule)
+	s.cachedRulesMutex.Lock()
+	defer s.cachedRulesMutex.Unlock()
 	for id, r := range rules {
 		if _, isCached := s.cachedRules[id]; isCached {
 			acc[id] = s.cachedRules[id]
@@ -433,7 +443,9 @@ func (s *LinearState) Clear(ctx *Context) error {
 	// Maybe protect the store (above), too.
 	s.slock(ctx, false)
 	s.Facts = make(map[string]RawFact)
+	s.cachedRulesMutex.Lock()
 	s.cachedRules = make(map[string]*Rule)
+	s.cachedRulesMutex.Unlock()
 	s.sunlock(ctx, false)
 	return err
 }
@@ -444,7 +456,9 @@ func (s *LinearState) Delete(ctx *Context) error {
 	// Maybe protect the store (above), too.
 	s.slock(ctx, false)
 	s.Facts = make(map[string]RawFact)
+	s.cachedRulesMutex.Lock()
 	s.cachedRules = make(map[string]*Rule)
+	s.cachedRulesMutex.Unlock()
 	s.sunlock(ctx, false)
 	return err
 }
